@@ -48,6 +48,7 @@ type Prog struct {
 	siteOut   map[ssa.CallInstruction][]*ssa.Function // resolved callees per call site (VTA)
 	fnByName  map[string]*ssa.Function
 	fileCache map[string][]byte
+	promoted  map[*types.Var]string // fields of embedded helper structs -> the struct that used to own them (promotedOwner)
 	funcDecl  map[*ssa.Function]*ast.FuncDecl
 	sch       *schemaRes // name anchors resolved against the frozen schema (schema.go)
 	// higher-order helpers (`dict.forEach(visit)`): the call of the function-valued parameter inside the helper is
@@ -134,8 +135,10 @@ func Load(root string, bc BuildConfig) (p *Prog, err error) {
 
 	for fn := range all {
 		if fn.Pkg == sp || (fn.Pkg == nil && fnInPkg(fn, sp)) {
-			if fn.Synthetic != "" && !strings.Contains(fn.Synthetic, "bound method") && fn.Name() != "init" {
-				// wrappers/thunks are analysed through their callees
+			if strings.HasPrefix(fn.Synthetic, "wrapper for") {
+				// the forwarding wrappers the compiler makes for promoted methods and for value methods called through
+				// a pointer are not code of the package: they are analysed through their callees
+				continue
 			}
 			p.srcFuncs = append(p.srcFuncs, fn)
 		}
@@ -337,7 +340,75 @@ func (p *Prog) Field(typ, field string) *types.Var {
 		}
 	}
 	// renamed field: resolved against the frozen schema
-	return p.schema().fieldOf[typ+"."+field]
+	if f := p.schema().fieldOf[typ+"."+field]; f != nil {
+		return f
+	}
+	// moved into an embedded helper struct (`type clientState struct { captureGate; … }`): the promoted field
+	for i := 0; i < st.NumFields(); i++ {
+		e := st.Field(i)
+		if !e.Embedded() {
+			continue
+		}
+		if est, ok := deref(e.Type()).Underlying().(*types.Struct); ok {
+			for j := 0; j < est.NumFields(); j++ {
+				if est.Field(j).Name() == field {
+					return est.Field(j)
+				}
+			}
+		}
+	}
+	return nil
+}
+
+// promotedOwner: a field of a struct that is embedded in a package struct which, in the frozen schema, owned a field
+// of that name itself is reported as that struct's field ("RedisEmu.mu" stays "RedisEmu.mu" after mu moved into an
+// embedded emuShutdown).
+func (p *Prog) promotedOwner(f *types.Var) string {
+	if p.promoted == nil {
+		p.promoted = map[*types.Var]string{}
+		sc := p.Pkg.Types.Scope()
+		for _, n := range sc.Names() {
+			tn, ok := sc.Lookup(n).(*types.TypeName)
+			if !ok {
+				continue
+			}
+			named, ok := tn.Type().(*types.Named)
+			if !ok {
+				continue
+			}
+			st, ok := named.Underlying().(*types.Struct)
+			if !ok {
+				continue
+			}
+			owner := p.canonTypeName(named)
+			frozen := map[string]bool{}
+			for _, ff := range frozenSchema[owner] {
+				frozen[ff.name] = true
+			}
+			if len(frozen) == 0 {
+				continue
+			}
+			direct := map[string]bool{}
+			for i := 0; i < st.NumFields(); i++ {
+				direct[st.Field(i).Name()] = true
+			}
+			for i := 0; i < st.NumFields(); i++ {
+				e := st.Field(i)
+				if !e.Embedded() {
+					continue
+				}
+				if est, ok := deref(e.Type()).Underlying().(*types.Struct); ok {
+					for j := 0; j < est.NumFields(); j++ {
+						g := est.Field(j)
+						if frozen[g.Name()] && !direct[g.Name()] {
+							p.promoted[g] = owner
+						}
+					}
+				}
+			}
+		}
+	}
+	return p.promoted[f]
 }
 
 // Global finds a package-level variable.
@@ -375,6 +446,9 @@ func deref(t types.Type) types.Type {
 func (p *Prog) ownerName(f *types.Var) string {
 	if f == nil {
 		return ""
+	}
+	if o := p.promotedOwner(f); o != "" {
+		return o
 	}
 	sc := p.Pkg.Types.Scope()
 	for _, n := range sc.Names() {
